@@ -115,7 +115,9 @@ def build(tier, seed, known):
         n_el += 1
     # family B: copies
     for cname, prefix, reader in COPY_OPS:
-        for ti, tr in enumerate(TRANSFORMS if tier == "thorough" else TRANSFORMS[:20]):
+        for ti, tr in enumerate(TRANSFORMS):
+            if tier != "thorough" and not (ti < 20 or ti >= 34):  # quick: the first 20 and the multi-position ¨M / Ȧ programs
+                continue
             oid = "b_%s_t%d" % (cname, ti)
             prog = prefix + tr
             src += "STMTS_%s = stmts_of(%r)\n" % (oid, prog)
